@@ -125,11 +125,22 @@ def _run(rec, case):
                      (['noop'] if case['a'] == case['b'] else []),
              sample={'edits': edits, 'a': case['a'][:400], 'b': case['b'][:400]})
     for sig, detail in viol[:1]:
-        rec.violation(sig + '|' + '+'.join(sorted(set(edits)))[:60], case, detail)
+        rec.violation(sig + _script_features(detail), case, detail)
 
 
-def final_sig(case, detail):
-    return None
+def _script_features(detail):
+    """coarse features of the migration plan, part of the root-cause signature"""
+    import re
+    script = detail.partition('--- migration ---')[2] or detail.partition('--- script ---')[2]
+    feats = []
+    if re.search(r'ALTER (ABSTRACT )?TYPE [\w:]+ RENAME TO', script) or \
+            re.search(r'ALTER TYPE [\w:]+ \{\s*RENAME TO', script):
+        feats.append('type-renamed')
+    if 'SET OWNED' in script:
+        feats.append('set-owned')
+    if 'DROP EXTENDING' in script or re.search(r'EXTENDING [\w:, ]+ (LAST|FIRST|BEFORE|AFTER)', script):
+        feats.append('rebased')
+    return '|' + '+'.join(feats)
 
 
 def shard(rec, idx, nshards, seed, tier):
